@@ -705,6 +705,7 @@ func main() {
 		impConstStage(r)
 		sockStage()
 		hostStage(*hx.Work)
+		emStage(r)
 		per, nops := 200, 40
 		if hx.Thorough() {
 			per, nops = 2500, 70
